@@ -1543,19 +1543,30 @@ func ruleNilableField(r *Run) {
 				r.ok(key, in.Pos(), "dominated by a non-nil test of %s", p.fieldKey(f))
 				return
 			}
-			// every call site of this function is guarded
-			okAll, nSites := true, 0
-			if node := cg.Nodes[fn]; node != nil {
+			// every call site of this function is guarded - directly, or because the calling helper is itself only
+			// called under the test (SendMsg [comp != nil] -> compressFrame -> compress)
+			var sitesGuarded func(g *ssa.Function, depth int) (bool, int)
+			sitesGuarded = func(g *ssa.Function, depth int) (bool, int) {
+				okAll, nSites := true, 0
+				node := cg.Nodes[g]
+				if node == nil || depth > 3 {
+					return false, 0
+				}
 				for _, e := range node.In {
 					if e.Site == nil || !p.InModule(e.Caller.Func) {
 						continue
 					}
 					nSites++
-					if !p.fieldNonNilAt(f, e.Site.Block()) {
+					if p.fieldNonNilAt(f, e.Site.Block()) {
+						continue
+					}
+					if up, n := sitesGuarded(e.Caller.Func, depth+1); !(up && n > 0) {
 						okAll = false
 					}
 				}
+				return okAll, nSites
 			}
+			okAll, nSites := sitesGuarded(fn, 0)
 			if nSites > 0 && okAll {
 				r.ok(key, in.Pos(), "every call site of %s is dominated by a non-nil test of %s", shortFunc(fn), p.fieldKey(f))
 				return
